@@ -147,4 +147,11 @@ class HyperCubeExperimenter(experimenter.Experimenter):
     self._exptr.evaluate(orig_suggestions)
 
     for suggestion, orig_suggestion in zip(suggestions, orig_suggestions):
-      suggestion.final_measurement = orig_suggestion.final_measurement
+      if orig_suggestion.final_measurement is None:
+        continue
+      # Complete the trial (rather than only assigning the measurement) so that
+      # an infeasible evaluation stays infeasible in the hypercube space.
+      suggestion.complete(
+          orig_suggestion.final_measurement,
+          infeasibility_reason=orig_suggestion.infeasibility_reason,
+      )
